@@ -26,11 +26,21 @@ impl Builder {
         let format = self.format.or_else(|| Format::detect(&raw));
 
         let reader = &mut &raw[..];
-        match format {
+        let scs = match format {
             Some(Format::Text) => text::read_scs(reader),
             Some(Format::Npy) => Array::read_npy(reader).map(Scs::from),
             None => Err(io::Error::new(io::ErrorKind::InvalidData, "invalid format")),
+        }?;
+
+        // A spectrum has at least one entry along each axis: downstream code relies on this
+        if scs.shape().iter().any(|&n| n == 0) {
+            return Err(io::Error::new(
+                io::ErrorKind::InvalidData,
+                "spectrum shape contains zero-length axis",
+            ));
         }
+
+        Ok(scs)
     }
 
     /// Set input source.
